@@ -8,39 +8,7 @@ use vstd::prelude::*;
 
 verus! {
 
-// ---------------------------------------------------------------- RFC 4648 specification
-// alphabet: value -> character (RFC 4648 table 1)
-pub open spec fn alpha(i: u8) -> u8 {
-    if i < 26 { (65 + i) as u8 } else if i < 52 { (97 + (i - 26)) as u8 } else if i < 62 { (48 + (i - 52)) as u8 } else if i == 62 { 43u8 } else { 47u8 }
-}
-// a 24-bit group of three input bytes as four 6-bit indices (RFC 4648 section 4)
-pub open spec fn idx0(a: u8) -> u8 { a >> 2 }
-pub open spec fn idx1(a: u8, b: u8) -> u8 { ((a & 3) << 4) | (b >> 4) }
-pub open spec fn idx2(b: u8, c: u8) -> u8 { ((b & 15) << 2) | (c >> 6) }
-pub open spec fn idx3(c: u8) -> u8 { c & 63 }
-pub open spec fn enc3(a: u8, b: u8, c: u8) -> Seq<u8> {
-    seq![alpha(idx0(a)), alpha(idx1(a, b)), alpha(idx2(b, c)), alpha(idx3(c))]
-}
-// final quantum with padding
-pub open spec fn enc_tail(p: Seq<u8>) -> Seq<u8> {
-    if p.len() == 0 { Seq::<u8>::empty() }
-    else if p.len() == 1 { seq![alpha(idx0(p[0])), alpha(idx1(p[0], 0)), 61u8, 61u8] }
-    else { seq![alpha(idx0(p[0])), alpha(idx1(p[0], p[1])), alpha(idx2(p[1], 0)), 61u8] }
-}
-// encoding of the complete 3-byte groups of s
-pub open spec fn full(s: Seq<u8>) -> Seq<u8>
-    decreases s.len(),
-{
-    if s.len() < 3 { Seq::<u8>::empty() } else { enc3(s[0], s[1], s[2]) + full(s.skip(3)) }
-}
-// the bytes left over after the complete groups (0, 1 or 2 of them)
-pub open spec fn rem(s: Seq<u8>) -> Seq<u8>
-    decreases s.len(),
-{
-    if s.len() < 3 { s } else { rem(s.skip(3)) }
-}
-// RFC 4648 base64 of a byte string
-pub open spec fn b64(s: Seq<u8>) -> Seq<u8> { full(s) + enc_tail(rem(s)) }
+//@ include b64_enc_spec.inc
 
 // ---------------------------------------------------------------- chunk independence (spec level)
 proof fn lemma_rem_len(s: Seq<u8>)
